@@ -19,6 +19,10 @@ Definition norm_with (mn mx : Q) (xs : list Q) : list Q :=
   if Qeq_bool mn mx then [0] else map (fun x => Qred ((x - mn) / (mx - mn))) xs.
 Definition norm_irr (obs : list (list Q)) : list (list Q) := map (norm_with (gmin obs) (gmax obs)) obs.
 
+(* dense data (argvals.py:DenseArgvals.normalization): every dimension's grid mapped affinely with ITS OWN minimum and maximum *)
+Definition norm_dense (points : list Q) : list Q :=
+  map (fun x => Qred ((x - qmin_list points) / (qmax_list points - qmin_list points))) points.
+
 (* observations at the given positions (all valid), in the given order *)
 Definition select (idx : list nat) (obs : list (list Q)) : list (list Q) := map (fun i => nth i obs []) idx.
 
